@@ -6,13 +6,13 @@
    modifier and every condition; entries whose value is a LIST are covered by the theorems
    of C07 (plain lists of string patterns) and C08 (quantified lists) and, for the remaining
    member kinds, by the correspondence check against this reference.  The known deviations
-   of the crate (D10/D11, D24, D26, D27, D28) are excluded by executable classifiers. *)
+   of the crate (D10/D11, D24, D26, D27, D28, D30) are excluded by executable classifiers. *)
 From TauModel Require Import Base Num Oracles Syntax Value Yaml Pratt ParseMap Solver Rule Keys Spec.
 From TauProofs Require C02.
 
 (* a scalar entry (string pattern, numeric pattern, number, boolean, null; plain key or
    not()/int()/flt()/str()) is true / false / missing exactly as documented *)
-Theorem entry_refines : entry_refines_stmt.
+Theorem entry_refines : entry_refines_excl_stmt.
 Proof. exact C02.entry_refines. Qed.
 Check entry_refines.
 Print Assumptions entry_refines.
@@ -20,7 +20,7 @@ Print Assumptions entry_refines.
 (* a mapping is the conjunction of its entries taken in written order (first non-true),
    nested mappings included *)
 Theorem mapping_refines_simple : forall o ic y e,
-  simple_mapping (S (yaml_depth y)) y = true -> d27_free o y ->
+  simple_mapping (S (yaml_depth y)) y = true -> excl_free o y ->
   parse_mapping o ic y = Ok e ->
   forall d : doc, solve_body o e (pure_doc d) = Ok (sem_mapping o ic (S (yaml_depth y)) y d).
 Proof. exact C02.mapping_refines_simple. Qed.
@@ -29,7 +29,7 @@ Print Assumptions mapping_refines_simple.
 
 (* an identifier (mapping, or sequence of mappings = disjunction) and what all()/of() count *)
 Theorem identifier_refines_simple : forall o ic y b,
-  simple_identifier y = true -> d27_free o y ->
+  simple_identifier y = true -> excl_free o y ->
   parse_identifier o ic y = Ok b -> ident_ok o ic y b.
 Proof. exact C02.identifier_refines_simple. Qed.
 Check identifier_refines_simple.
@@ -61,7 +61,7 @@ Theorem rule_refines_simple : forall o ic kv dkv r (d : doc),
   ylookup key_detection kv = Some (YMap dkv) ->
   forallb (fun p : yaml * yaml => match fst p with YStr _ => true | _ => false end) dkv = true ->
   NoDup (map fst (raw_identifiers dkv)) ->
-  (forall i y, In (i, y) (raw_identifiers dkv) -> simple_identifier y = true /\ d27_free o y) ->
+  (forall i y, In (i, y) (raw_identifiers dkv) -> simple_identifier y = true /\ excl_free o y) ->
   load_rule o ic (YMap kv) = Ok r ->
   exists r3, solve_rule3 o (r_det r) (pure_doc d) = Ok r3 /\
              sem_rule o ic (YMap kv) d = Some r3 /\
